@@ -1673,7 +1673,7 @@ func battery(s *search.Search, rt *root, others []*root) []string {
 func (e *env) c08() {
 	e.collectRoots(e.c.Pick(40, 140))
 	e.rootHistogram()
-	e.r.Rule = "(a) determinism: three fresh engine instances play the same self-play game (<= 60 plies, tables carried over, per-ply depth/node limits) CONCURRENTLY with all other games on a machine saturated by spinning goroutines; instance 2 additionally has an open stop channel and a sleeping output writer, instance 3 a soft time that never expires and random sleeps; everything observable except the time field must be identical; (b) soft == hard: search with a soft node limit ends after N nodes -> an identically prepared instance with hard budget N gives the same (score, move, ponder), the same info lines (time blanked; the hard run may add the abort notice of the next iteration), exactly N nodes, and the same state behind (battery of 4-5 follow-up searches compared in full, plus the hook digest when /repo provides it); (c) node counter <= hard budget in every run; non-trivial = (a) game of >= 10 plies, (b) soft-limited run that really ended at the soft limit; distinct by (root, limits, table size, warm-up)"
+	e.r.Rule = "(a) determinism: three fresh engine instances play the same self-play game (<= 60 plies, tables carried over, per-ply depth/node limits) CONCURRENTLY with all other games on a machine saturated by spinning goroutines; instance 2 additionally has an open stop channel and a sleeping output writer, instance 3 a soft time that never expires and random sleeps; everything observable except the time field must be identical; (b) soft == hard: search with a soft node limit ends after N nodes -> an identically prepared instance with hard budget N gives the same (score, move, ponder), the same info lines (time blanked; the hard run may add the abort notice of the next iteration), exactly N nodes, and the same state behind (battery of 4-5 follow-up searches compared in full, plus the hook digest when /repo provides it); (c) node counter <= hard budget in every run; (d) the same in PONDER searches (WithNodes(N) together with WithPonderHit: channel never signalled / message waiting before the start / signalled after a delay; bounded by a stop channel closed after 4-20 ms): Counters.Nodes <= N on return and the move is legal or null-only-if-final; non-trivial = (a) game of >= 10 plies, (b) soft-limited run that really ended at the soft limit; distinct by (root, limits, table size, warm-up)"
 	rng := e.c.Rng
 	if digest(search.New(32000)) != "" {
 		e.r.Notes = append(e.r.Notes, "search.VerifDigest hook present: persistent state compared by digest as well")
@@ -1926,6 +1926,94 @@ func (e *env) c08() {
 		}
 		if j.got == j.k {
 			e.r.Count("budget-sweep:budget-exhausted", 1)
+		}
+	}
+	e.c08ponder()
+}
+
+// c08ponder: (d) the hard budget holds while pondering as well.  A ponder search ignores the depth
+// limit and, at the budget, neither counts nor aborts until the ponder hit arrives; the runs are
+// therefore bounded by a stop channel closed after a short while.  The ponder-hit channel is never
+// signalled / holds its message before the start / is signalled after a delay.
+func (e *env) c08ponder() {
+	rng := e.c.Rng
+	type pj struct {
+		rt        *root
+		n, d, tt  int
+		mode      int // 0 never, 1 before the start, 2 after hitAfter
+		hitAfter  time.Duration
+		stopAfter time.Duration
+		got       int
+		oc        outcome
+	}
+	roots := e.roots
+	if len(roots) > e.c.Pick(16, 60) {
+		roots = roots[:e.c.Pick(16, 60)]
+	}
+	var js []*pj
+	for ri, rt := range roots {
+		for _, n := range []int{0, 1, 2, 7, 50, 300, 1000, 5000, rng.IntN(3000), rng.IntN(20000)} {
+			for mode := 0; mode < 3; mode++ {
+				js = append(js, &pj{rt: rt, n: n, d: 1 + rng.IntN(6), tt: ttSizes[(ri+n+mode)%3], mode: mode,
+					hitAfter:  time.Duration(rng.IntN(8000)) * time.Microsecond,
+					stopAfter: time.Duration(4000+rng.IntN(16000)) * time.Microsecond})
+			}
+		}
+	}
+	parallel(len(js), func(i int) {
+		j := js[i]
+		b := j.rt.build()
+		stop := make(chan struct{})
+		ph := make(chan time.Time, 1)
+		if j.mode == 1 {
+			ph <- time.Now()
+		}
+		var wg sync.WaitGroup
+		wg.Add(1)
+		go func() {
+			defer wg.Done()
+			if j.mode == 2 {
+				time.Sleep(j.hitAfter)
+				ph <- time.Now()
+				if j.stopAfter > j.hitAfter {
+					time.Sleep(j.stopAfter - j.hitAfter)
+				}
+			} else {
+				time.Sleep(j.stopAfter)
+			}
+			close(stop)
+		}()
+		cnt := search.Counters{}
+		func() {
+			defer func() {
+				if p := recover(); p != nil {
+					j.oc.panicked = fmt.Sprint(p)
+				}
+			}()
+			j.oc.score, j.oc.mv, j.oc.pm = search.New(j.tt).Go(b, search.WithOutput(nil), search.WithCounters(&cnt),
+				search.WithDepth(Depth(j.d)), search.WithNodes(j.n), search.WithPonderHit(ph), search.WithStop(stop))
+		}()
+		wg.Wait()
+		j.got = cnt.Nodes
+	})
+	names := [...]string{"never signalled", "message waiting before the start", "signalled after a delay"}
+	for _, j := range js {
+		e.r.Evaluations++
+		e.r.Count("ponder-budget", 1)
+		ops := []string{fmt.Sprintf("new tt=%d", j.tt), j.rt.position(),
+			fmt.Sprintf("go ponder depth %d nodes %d (ponderhit %s, stop closed after %v)", j.d, j.n, names[j.mode], j.stopAfter)}
+		if j.got > j.n || j.oc.panicked != "" {
+			e.r.Fail(common.Mismatch{Property: "C08", Kind: "failing-input", Ops: ops,
+				Impl: fmt.Sprintf("nodes=%d %s", j.got, j.oc.panicked), Spec: fmt.Sprintf("<= %d", j.n),
+				Note: "node counter exceeds the hard budget in a ponder search"})
+		}
+		if note := checkResult(j.rt, j.oc, false); note != "" {
+			e.r.Fail(common.Mismatch{Property: "C06", Kind: "failing-input", Ops: ops,
+				Impl: fmt.Sprintf("score=%d move=%s", j.oc.score, j.oc.mv), Note: "ponder search with a hard budget: " + note})
+		}
+		if j.got == j.n {
+			e.r.Count("ponder-budget:budget-exhausted", 1)
+			e.r.Nontrivial(strings.Join(ops[:2], "|") + fmt.Sprintf("|ponder n=%d mode=%d", j.n, j.mode))
 		}
 	}
 }
